@@ -474,4 +474,136 @@ theorem rel_init (s : St) (redl : List MsgId) (hf : FreshNew s) (ht : s.tx = non
 
 theorem crash_fetchable (s : St) (h : AllFetchable s) : AllFetchable (crash s) := h
 
+/-! ### E. without re-downloads (`redl = []`) the store discipline keeps every row's COMPLETE cache file -/
+
+theorem cachedOk_fetchOk (st : Store) (r : Row) (h : cachedOk st r = true) : fetchOk st r = true := by
+  unfold cachedOk at h
+  unfold fetchOk
+  split at h
+  · next l hl => rw [hl]; exact h
+  · exact absurd h (by simp)
+
+theorem cached_fetchable (s : St) (h : AllCached s) : AllFetchable s :=
+  fun r hr => cachedOk_fetchOk _ _ (h r hr)
+
+theorem cachedOk_congr (st : Store) (r r0 : Row) (hi : r0.id = r.id) (hl : r0.lit = r.lit) :
+    cachedOk st r = cachedOk st r0 := by
+  unfold cachedOk; rw [hi, hl]
+
+theorem cachedOk_put_other (st : Store) (id : MsgId) (f : File) (r : Row) (h : r.id ≠ id) :
+    cachedOk (st.put id f) r = cachedOk st r := by
+  unfold cachedOk Store.put; simp [h]
+
+theorem exec_redl (a : Abs) (st : Step) : (a.exec st).redl = a.redl := by
+  cases st <;> simp only [Abs.exec, Abs.setFile, Abs.forget]
+  · cases a.tx <;> rfl
+  · cases a.tx <;> rfl
+
+theorem absRun_redl (steps : List Step) : ∀ a : Abs, (absRun steps a).redl = a.redl := by
+  induction steps with
+  | nil => intro a; rfl
+  | cons st r ih => intro a; simp only [absRun, List.foldl_cons] at ih ⊢; rw [ih, exec_redl]
+
+/-- one disciplined step of an operation that re-downloads nothing keeps `AllCached` -/
+theorem step_cached (a : Abs) (s : St) (st : Step) (hrel : Rel a s) (h0 : a.redl = []) (hinv : AllCached s)
+    (hok : a.ok st = true) : AllCached (exec s st) := by
+  have noRow : ∀ id, a.mayHaveRow id = false → ∀ r ∈ s.db.rows, r.id ≠ id := by
+    intro id hno
+    have hnr : s.db.hasRow id = false := by
+      cases hh : s.db.hasRow id with
+      | false => rfl
+      | true => have := hrel.rows id hh; simp [this] at hno
+    exact not_hasRow_ne _ _ hnr
+  have setCase : ∀ (id : MsgId) (f : File), a.mayHaveRow id = false →
+      AllCached { s with store := s.store.put id f } := by
+    intro id f hno r hr
+    show cachedOk (s.store.put id f) r = true
+    rw [cachedOk_put_other _ _ _ _ (noRow id hno r hr)]
+    exact hinv r hr
+  cases st with
+  | rdBegin => exact hinv
+  | rd n => exact hinv
+  | get id => exact hinv
+  | list => exact hinv
+  | txBegin => exact fun r hr => hinv r hr
+  | stmt q =>
+    cases h : s.tx with
+    | none => simp only [exec, h]; exact hinv
+    | some b => simp only [exec, h]; exact fun r hr => hinv r hr
+  | setOpen id =>
+    refine setCase id _ ?_
+    simpa [Abs.ok, h0] using hok
+  | setMid id =>
+    refine setCase id _ ?_
+    simpa [Abs.ok, h0] using hok
+  | setEnd id l =>
+    refine setCase id _ ?_
+    simpa [Abs.ok, h0] using hok
+  | del ids =>
+    simp only [Abs.ok, List.all_eq_true, Bool.not_eq_true'] at hok
+    intro r hr
+    have hni : r.id ∉ ids := fun hc => noRow _ (hok _ hc) r hr rfl
+    show cachedOk (s.store.del ids).1 r = true
+    have := hinv r hr
+    unfold cachedOk at this ⊢
+    rw [del_other _ _ _ hni]; exact this
+  | commit =>
+    have ht := hrel.tx
+    cases h : s.tx with
+    | none => simp only [exec, h]; exact hinv
+    | some b =>
+      have h' : a.tx = some b := by rw [ht, h]
+      simp only [Abs.ok, h', List.all_eq_true, Bool.and_eq_true, Bool.not_eq_true', beq_iff_eq,
+        not_contains] at hok
+      simp only [exec, h]
+      intro r hr
+      obtain ⟨h1, _⟩ := row_applyAll b s.db r hr
+      rcases h1 with ⟨r0, hr0, hi, hl, _⟩ | ⟨hins, hlit⟩
+      · show cachedOk s.store r = true
+        rw [cachedOk_congr s.store r r0 hi hl]; exact hinv r0 hr0
+      · have hfile := hrel.files _ _ (hok _ hins).1.1.1
+        show cachedOk s.store r = true
+        unfold cachedOk; rw [hfile]; simp [hlit]
+
+theorem run_cached (steps : List Step) : ∀ (a : Abs) (s : St), Rel a s → a.redl = [] → AllCached s →
+    disciplinedFrom steps a = true →
+    Rel (absRun steps a) (run steps s) ∧ AllCached (run steps s) := by
+  induction steps with
+  | nil => intro a s hrel _ hinv _; exact ⟨hrel, hinv⟩
+  | cons st r ih =>
+    intro a s hrel h0 hinv h
+    simp only [disciplinedFrom, Bool.and_eq_true] at h
+    obtain ⟨hr', _⟩ := step_sound a s st hrel (cached_fetchable s hinv) h.1
+    have hc' := step_cached a s st hrel h0 hinv h.1
+    rw [run_cons]
+    exact ih _ _ hr' (by rw [exec_redl]; exact h0) hc' h.2
+
+theorem crash_cached (s : St) (h : AllCached s) : AllCached (crash s) := h
+
+theorem recover_cached (s : St) (h : AllCached s) : AllCached (recover s) := by
+  intro r hr
+  rw [recover_db, mem_purge] at hr
+  have hfo := h r hr.1
+  have hrow : s.db.purge.hasRow r.id = true :=
+    (hasRow_iff _ _).mpr ⟨r, (mem_purge _ _).mpr hr, rfl⟩
+  have hst : (recover s).store r.id = s.store r.id := by
+    rw [recover_store, hrow]; simp only [if_true]
+    exact del_other _ _ _ hr.2
+  unfold cachedOk at hfo ⊢
+  rw [hst]
+  exact hfo
+
+/-- the state after step `i` failed, the roll-back, and a disciplined error handler -/
+theorem fail_cached (steps handler : List Step) (s : St) (i : Nat)
+    (hdisc : disciplined steps [] = true) (hh : handlerOk steps handler i [] = true)
+    (hfresh : FreshNew s) (htx : s.tx = none) (hinv : AllCached s) :
+    AllCached (failAt i steps handler s) := by
+  have hrel0 : Rel { redl := [] } s := rel_init s [] hfresh htx (by intro id hid; simp at hid)
+  obtain ⟨hrel, hc⟩ := run_cached (steps.take i) _ s hrel0 rfl hinv (disciplinedFrom_take steps _ i hdisc)
+  have hrel' := rel_crash _ _ hrel
+  have hred : ({ absRun (steps.take i) { redl := [] } with tx := none } : Abs).redl = [] := by
+    show (absRun (steps.take i) { redl := [] }).redl = []
+    rw [absRun_redl]
+  exact (run_cached handler _ _ hrel' hred (crash_cached _ hc) hh).2
+
 end Gluon.Crash
